@@ -194,6 +194,23 @@ def generate(R: Draw, tier: str) -> dict:
         if R.bool(0.1):
             f2 = min(n1, f2 + 1)
             t2 = max(t2, f2)
+        elif R.bool(0.2):
+            # off by an open depth: the second step placed as if the first slice's content size (not its slice size)
+            # counted, or the other way round
+            k = R.choice([x for x in (s1["slice"]["os"], s1["slice"]["oe"], sl2["os"], sl2["oe"]) if x] or [1])
+            sh = R.choice([-k, k])
+            f2 = max(0, min(n1, f2 + sh))
+            t2 = max(f2, min(n1, t2 + sh))
+        if s1["slice"]["os"] and not s1["slice"]["oe"] and R.bool(0.5):
+            # first slice open at the start only: a second, start-closed step placed where the first slice's CONTENT
+            # (not its size) would end - must not be taken for adjacent
+            sl2 = gs.closed_slice(R, g) if R.bool(0.5) else {"c": [P.mk("text", {}, None, [], g.text(R))], "os": 0, "oe": 0}
+            f2 = min(n1, s1["from"] + size1 + s1["slice"]["os"])
+            t2 = min(n1, f2 + R.int(0, 2))
+        elif not s1["slice"]["os"] and s1["slice"]["oe"] and R.bool(0.3):
+            sl2 = gs.closed_slice(R, g) if R.bool(0.5) else {"c": [P.mk("text", {}, None, [], g.text(R))], "os": 0, "oe": 0}
+            t2 = max(0, s1["from"] - s1["slice"]["oe"])
+            f2 = max(0, t2 - R.int(0, 2))
         s2 = {"k": "replace", "from": f2, "to": t2, "slice": sl2, "structure": R.bool(0.05)}
     others = []
     # the base document with a block appended (positions of the pair stay valid)
